@@ -22,12 +22,21 @@ type Op struct {
 	WithVal bool   `json:"with_val,omitempty"` // container part: OnDelete carries the old value (as handleChanges sends it) instead of "" (as a watch DELETE does)
 	P       []int  `json:"perm,omitempty"`     // delivery order choice for each run of same-kind emissions (index into the permutations of the key-sorted run)
 	Batch   []Op   `json:"batch,omitempty"`
+	Slot    string `json:"slot,omitempty"`   // leave part: listener slot (a, b, c) that joins / leaves
+	Leave   string `json:"leave,omitempty"`  // leave part, on an event: "x@y" = listener x is unmonitored from inside listener y's callback while this event is delivered
 	Set     int    `json:"set,omitempty"`    // kube: bit mask over ip1..ip3
 	Layout  int    `json:"layout,omitempty"` // kube: how the addresses are spread over EndpointSubsets
 }
 
 func (o Op) String() string {
+	if o.Leave != "" {
+		l := o.Leave
+		o.Leave = ""
+		return o.String() + "[unmonitor " + l + "]"
+	}
 	switch o.K {
+	case "join", "leave":
+		return fmt.Sprintf("%s(%s)", o.K, o.Slot)
 	case "put":
 		return fmt.Sprintf("put(%s=%s)", o.Key, o.Val)
 	case "del":
